@@ -1178,6 +1178,29 @@ def check_C13(A: Analysis, tier):
                             site_loc(A, ev), {"entry": e, "handling": list(ev.handling)})
     rules.append(ri)
 
+    rj = Rule("C13", "C13.j", "store_metadata touches the permanent address of a document by one operation only, the rename of the finished "
+              "temp file onto it: no removal, rename-away or open-for-writing of a metadata document (a failure after such a step "
+              "would leave the call failed and the previous version gone or damaged)", floor=1)
+    for m in ALL_MODES:
+        it = A.api("store_metadata", m)
+        for ev in it.events:
+            if ev.kind not in ("RENAME", "REMOVE", "WRITE", "CREATE"):
+                continue
+            srcs = {c.cls for c in primary(ev.classes[0])}
+            dsts = {c.cls for c in primary(ev.classes[1])} if ev.kind == "RENAME" and len(ev.classes) > 1 else set()
+            if "META" not in srcs | dsts:
+                continue
+            rj.ob()
+            if ev.kind == "RENAME" and "META" not in srcs and srcs <= {"TMP"}:
+                rj.inst(f"store_metadata [{m}]: publishing rename {site_func(ev)}")
+                continue
+            what = {"RENAME": "renames away" if "META" in srcs else "renames something that is not its temp file onto",
+                    "REMOVE": "removes", "WRITE": "opens for writing", "CREATE": "creates in place"}[ev.kind]
+            rj.fail(site_func(ev), site_text(ev), f"store_metadata {what} a permanent metadata document: if the call fails after this step the previous "
+                    "document version is no longer intact (replacement must be the single rename of the temp file)", site_loc(A, ev),
+                    {"mode": m, "kind": ev.kind})
+    rules.append(rj)
+
     re_ = Rule("C13", "C13.e", "no call completes normally out of a handler that caught a library (I/O) error, "
                "except through a tabled swallower", floor=8)
     for m in ("th",):
